@@ -323,11 +323,29 @@ OPERANDS = ["R1", "r15", "R16", "FP_alt", "0", "1", "-1", "255", "256", "65535",
             "0x" + "f" * 3000]
 
 
+def repetition_probes(rng, n):
+    """Long runs of one character next to directives, literals and operations: the inputs on which
+    backtracking regular expressions and quadratic scans blow up."""
+    heads = ["#ifdef X", "#endif", "#else", "#ifndef HERA_PY", "#include", "SET(R1, ", "LP_STRING(\"", "//", "/*", "0x", "R",
+             "'", "", "LABEL(", "print(\"", "#ifdef"]
+    runs = [" ", "\t", "\r", " \t", "(", ")", "/", "*", "\\", "0", "9", "a", "_", "\"", "'", ",", "#", "\n", " \n", "\x0b"]
+    tails = ["", "X", "HERA_PY", "// c", "/* c */", ")", "\"", "junk junk", "\n#endif\n", "1"]
+    out = []
+    # always: every directive x every kind of blank run x a tail that is not a directive's
+    for h in ["#ifdef X", "#ifndef HERA_PY", "#else", "#endif", "#include"]:
+        for r in [" ", "\t", " \t", "\r"]:
+            for t in ["X", "junk (", ""]:
+                out.append(h + r * 60 + t + "\n")
+    for _ in range(n):
+        out.append(rng.choice(heads) + rng.choice(runs) * rng.choice([40, 60, 200, 2000]) + rng.choice(tails) + rng.choice(["", "\n"]))
+    return out
+
+
 def survival_texts(rng, n):
     import lexcases as lc
     import progcases as pc
     names = all_op_names()
-    out = []
+    out = repetition_probes(rng, max(12, n // 25))
     for k in range(n):
         r = rng.random()
         if r < 0.25:
@@ -413,20 +431,25 @@ def planted_fault(rng):
     """-> dict(text, line, col, token, kind, frag, path_is_included)"""
     pre = layout_prefix(rng)
     tmpl, token, kind, frag, before = rng.choice(FAULTS)
-    indent = rng.choice(["", "  ", "\t", "\t\t ", "/* c */ ", "    "])
-    line = tmpl.format(indent)
+    indent = rng.choice(["", "  ", "\t", "\t\t ", "/* c */ ", "    ", "NOP()  /* a comment\n   that ends here */ ", "  /* x\n*/"])
+    line = tmpl.format(indent)          # may span two lines when the indentation holds a block comment
     lines = pre + before
+    first = len(pre) + len(before) + 1   # the line number on which `line` starts
     if token == "toofar":
         lines = lines + [line] + ["NOP()"] * 130 + ["LABEL(toofar)"]
-        lineno = len(pre) + len(before) + 1
     else:
         lines = lines + [line]
-        lineno = len(lines)
         for _ in range(rng.choice([0, 1, 3])):
             lines.append(rng.choice(["NOP()", "// trailing", "", "\tSET(R3, 1)"]))
-    col = line.index(token) + 1
+
+    def where(idx):
+        before_tok = line[:idx]
+        return first + before_tok.count("\n"), idx - (before_tok.rfind("\n") + 1) + 1
+    name = tmpl.format("").split("(")[0]
+    lineno, col = where(line.index(token, len(indent)))
+    _, name_col = where(line.index(name, len(indent)))
     return {"text": "\n".join(lines) + "\n", "line": lineno, "col": col, "token": token, "kind": kind, "frag": frag,
-            "name_col": line.index(tmpl.format("").split("(")[0]) + 1}
+            "name_col": name_col}
 
 
 def diagnostics(text, mode="", path=None):
